@@ -140,7 +140,7 @@ def run_histories(depth, roles=("SERVER", "CLIENT")):
     SM.time.sleep = lambda *_a, **_k: None          # SLEEP_TIMER pauses are not part of the protocol
     tick = _tick_contracts(API)
     some = list(tick.values())[0]
-    replay.install_loggers(API, some, keep_real=True)
+    replay.install_loggers(API, some, keep_real="all")
     msgs = _mk_messages()
     failures, nseq, nticks = [], 0, 0
     for role in roles:
